@@ -168,6 +168,9 @@ var (
 	gbkEdge     []rune
 )
 
+// GBKEdgeRunes exports the edge runes (see gbkEdgeRunes).
+func GBKEdgeRunes() []rune { return gbkEdgeRunes() }
+
 func gbkEdgeRunes() []rune {
 	gbkEdgeOnce.Do(func() {
 		enc := simplifiedchinese.GBK.NewEncoder()
